@@ -47,3 +47,119 @@ func CompareAndSwapUint32(addr *uint32, old, new uint32) bool {
 	return std.CompareAndSwapUint32(addr, old, new)
 }
 func StoreUint64(addr *uint64, v uint64) { std.StoreUint64(addr, v) }
+
+// ---- the rest of sync/atomic, so that a change that starts using it still builds: swaps and
+// compare-and-swaps are scheduling points, the typed values wrap the functions above.
+
+func LoadUintptr(addr *uintptr) uintptr {
+	vsched.Point("atomic.LoadUintptr")
+	return std.LoadUintptr(addr)
+}
+func SwapInt32(addr *int32, v int32) int32 {
+	vsched.Point("atomic.SwapInt32")
+	return std.SwapInt32(addr, v)
+}
+func SwapInt64(addr *int64, v int64) int64 {
+	vsched.Point("atomic.SwapInt64")
+	return std.SwapInt64(addr, v)
+}
+func SwapUint32(addr *uint32, v uint32) uint32 {
+	vsched.Point("atomic.SwapUint32")
+	return std.SwapUint32(addr, v)
+}
+func SwapUint64(addr *uint64, v uint64) uint64 {
+	vsched.Point("atomic.SwapUint64")
+	return std.SwapUint64(addr, v)
+}
+func CompareAndSwapInt64(addr *int64, old, new int64) bool {
+	vsched.Point("atomic.CASInt64")
+	return std.CompareAndSwapInt64(addr, old, new)
+}
+func CompareAndSwapUint64(addr *uint64, old, new uint64) bool {
+	vsched.Point("atomic.CASUint64")
+	return std.CompareAndSwapUint64(addr, old, new)
+}
+
+type Int32 struct{ v int32 }
+
+func (x *Int32) Load() int32                    { return LoadInt32(&x.v) }
+func (x *Int32) Store(v int32)                  { StoreInt32(&x.v, v) }
+func (x *Int32) Add(d int32) int32              { return AddInt32(&x.v, d) }
+func (x *Int32) Swap(v int32) int32             { return SwapInt32(&x.v, v) }
+func (x *Int32) CompareAndSwap(o, n int32) bool { return CompareAndSwapInt32(&x.v, o, n) }
+
+type Int64 struct{ v int64 }
+
+func (x *Int64) Load() int64                    { return LoadInt64(&x.v) }
+func (x *Int64) Store(v int64)                  { StoreInt64(&x.v, v) }
+func (x *Int64) Add(d int64) int64              { return AddInt64(&x.v, d) }
+func (x *Int64) Swap(v int64) int64             { return SwapInt64(&x.v, v) }
+func (x *Int64) CompareAndSwap(o, n int64) bool { return CompareAndSwapInt64(&x.v, o, n) }
+
+type Uint32 struct{ v uint32 }
+
+func (x *Uint32) Load() uint32                    { return LoadUint32(&x.v) }
+func (x *Uint32) Store(v uint32)                  { StoreUint32(&x.v, v) }
+func (x *Uint32) Add(d uint32) uint32             { return AddUint32(&x.v, d) }
+func (x *Uint32) Swap(v uint32) uint32            { return SwapUint32(&x.v, v) }
+func (x *Uint32) CompareAndSwap(o, n uint32) bool { return CompareAndSwapUint32(&x.v, o, n) }
+
+type Uint64 struct{ v uint64 }
+
+func (x *Uint64) Load() uint64                    { return LoadUint64(&x.v) }
+func (x *Uint64) Store(v uint64)                  { StoreUint64(&x.v, v) }
+func (x *Uint64) Add(d uint64) uint64             { return AddUint64(&x.v, d) }
+func (x *Uint64) Swap(v uint64) uint64            { return SwapUint64(&x.v, v) }
+func (x *Uint64) CompareAndSwap(o, n uint64) bool { return CompareAndSwapUint64(&x.v, o, n) }
+
+type Bool struct{ v int32 }
+
+func b2i32(b bool) int32 {
+	if b {
+		return 1
+	}
+	return 0
+}
+func (x *Bool) Load() bool                    { return LoadInt32(&x.v) != 0 }
+func (x *Bool) Store(v bool)                  { StoreInt32(&x.v, b2i32(v)) }
+func (x *Bool) Swap(v bool) bool              { return SwapInt32(&x.v, b2i32(v)) != 0 }
+func (x *Bool) CompareAndSwap(o, n bool) bool { return CompareAndSwapInt32(&x.v, b2i32(o), b2i32(n)) }
+
+// Value: one runner at a time, so a plain field guarded by scheduling points suffices.
+type Value struct{ v any }
+
+func (x *Value) Load() any   { vsched.Point("atomic.Value.Load"); return x.v }
+func (x *Value) Store(v any) { vsched.Point("atomic.Value.Store"); x.v = v }
+func (x *Value) Swap(v any) any {
+	vsched.Point("atomic.Value.Swap")
+	o := x.v
+	x.v = v
+	return o
+}
+func (x *Value) CompareAndSwap(o, n any) bool {
+	vsched.Point("atomic.Value.CAS")
+	if x.v != o {
+		return false
+	}
+	x.v = n
+	return true
+}
+
+type Pointer[T any] struct{ p *T }
+
+func (x *Pointer[T]) Load() *T   { vsched.Point("atomic.Pointer.Load"); return x.p }
+func (x *Pointer[T]) Store(p *T) { vsched.Point("atomic.Pointer.Store"); x.p = p }
+func (x *Pointer[T]) Swap(p *T) *T {
+	vsched.Point("atomic.Pointer.Swap")
+	o := x.p
+	x.p = p
+	return o
+}
+func (x *Pointer[T]) CompareAndSwap(o, n *T) bool {
+	vsched.Point("atomic.Pointer.CAS")
+	if x.p != o {
+		return false
+	}
+	x.p = n
+	return true
+}
